@@ -888,7 +888,7 @@ fn monitored_run(rep: &mut Report, args: &Args, seed: u64, replaying: bool) {
     let home = format!("{scratch}/home");
     std::fs::create_dir_all(format!("{scratch}/cwd")).unwrap();
     std::fs::create_dir_all(&home).unwrap();
-    let (n_lib, n_sess, n_docs) = (args.scale(58, 400), args.scale(5, 15), args.scale(2, 3));
+    let (n_lib, n_sess, n_docs) = (args.scale(58, 2000), args.scale(5, 40), args.scale(2, 3));
     let sc = build_scenario(&scratch, seed, n_lib, n_sess, n_docs);
     // pre-write every document and the scenario: the child writes nothing itself
     let mut prewritten: BTreeMap<String, String> = BTreeMap::new();
@@ -928,6 +928,33 @@ fn monitored_run(rep: &mut Report, args: &Args, seed: u64, replaying: bool) {
     };
     let summary: Value = serde_json::from_str(&sumline[18..]).unwrap();
     rep.extra.insert("child_summary".into(), summary.clone());
+    for d in sc["lib_docs"].as_array().unwrap() {
+        let fe = d["fe"].as_str().unwrap();
+        rep.count(&format!("lib_doc:{}", fe.split(':').next().unwrap_or(fe)));
+        rep.count(if d["text"].as_str().unwrap().len() < 200 { "lib_doc_len:<200" } else { "lib_doc_len:>=200" });
+    }
+    for (k, s) in sc["sessions"].as_array().unwrap().iter().enumerate() {
+        rep.count(["session_paths:all-explicit", "session_paths:user-only", "session_paths:all-default", "session_paths:tilde+slash+non-ascii", "session_paths:stats-only"][k % 5]);
+        if !s["settings2"].is_null() {
+            rep.count("session_paths:switched-mid-session");
+        }
+        for d in s["docs"].as_array().unwrap() {
+            rep.count(&format!("session_doc_lang:{}", d["lang"].as_str().unwrap()));
+        }
+    }
+    for s in summary["sessions"].as_array().unwrap() {
+        for (k, v) in s["ops"].as_object().unwrap() {
+            rep.count_n(&format!("ls_op:{k}"), v.as_u64().unwrap_or(0));
+        }
+        for (k, v) in s["commands"].as_object().unwrap() {
+            rep.count_n(&format!("ls_command:{k}"), v.as_u64().unwrap_or(0));
+        }
+        rep.count_n("ls_handlers_stuck", s["stuck"].as_u64().unwrap_or(0));
+        if !s["panic"].is_null() {
+            rep.count("ls_session_panicked");
+            eprintln!("note: language-server session {} (seed {seed}) panicked: {}", s["name"], s["panic"]);
+        }
+    }
     rep.extra.insert("child_wall_s".into(), json!(t0.elapsed().as_secs_f64()));
     let logtext = String::from_utf8_lossy(&std::fs::read(&log).expect("strace log")).to_string();
     let (judged, stats) = judge_log(rep, &logtext, format!("{scratch}/cwd").as_bytes(), &cfgs, "startup", "child");
@@ -1003,7 +1030,8 @@ fn monitored_run(rep: &mut Report, args: &Args, seed: u64, replaying: bool) {
     }
     rep.monitor("phases_with_files_where_configured", persisted);
     rep.sample(json!({"child": summary, "phases": cfgs.len(), "records": judged.len()}));
-    if !replaying && std::env::var("C10_KEEP").is_err() {
+    let _ = replaying;
+    if std::env::var("C10_KEEP").is_err() {
         let _ = std::fs::remove_dir_all(&scratch);
         let _ = std::fs::remove_file(&log);
     }
@@ -1237,6 +1265,13 @@ fn real_binary(rep: &mut Report, _args: &Args) {
             }
         }
         rep.monitor(&format!("real_{mode}_exchanges_completed"), ok);
+        if mode == "tcp" && ok < 8 && String::from_utf8_lossy(&std::fs::read(&log).unwrap_or_default()).contains("EADDRINUSE") {
+            // somebody else on this machine owns port 4000 right now: nothing can be observed, nothing is claimed
+            rep.monitor("real_tcp_skipped_port_4000_in_use", 1);
+            let _ = std::fs::remove_dir_all(&scratch);
+            let _ = std::fs::remove_file(&log);
+            continue;
+        }
         if ok < 8 {
             panic!("real harper-ls ({mode}): only {ok} of 8 editor exchanges completed");
         }
